@@ -38,7 +38,34 @@ class World:
         self.next_pid = 1000
         self.handlers: Dict[int, Any] = {}
         self.queue: Any = None
-        self.deaths: List[Tuple[int, "FakeProcess"]] = []  # (tick, process)
+        self.deaths: List[Tuple[int, "FakeProcess", bool]] = []  # (tick, process, died mid-tick)
+        # mid-tick events: a 4th element of a history entry lists [k, kind, arg]; the event happens just before
+        # the k-th call the manager makes into the process world while it handles that tick (a signal handler
+        # runs between two bytecodes of the main thread, a worker may die at any moment)
+        self.calls = 0
+        self.mid_now: Dict[int, List[Tuple[str, Any]]] = {}
+        self.in_inject = False
+        self.mid_sites: List[Tuple[str, str]] = []
+
+    def point(self, site: str) -> None:
+        if self.in_sleep or self.in_inject or not self.mid_now:
+            return
+        self.calls += 1
+        evs = self.mid_now.pop(self.calls, None)
+        if not evs:
+            return
+        self.in_inject = True
+        try:
+            for kind, arg in evs:
+                self.mid_sites.append((site, kind if kind != "sig" else str(arg)))
+                if kind == "die":
+                    self._inject((arg,), None, False, mid=True)
+                elif kind == "sig":
+                    self._inject((), arg, False, mid=True)
+                else:
+                    self._inject((), None, True, mid=True)
+        finally:
+            self.in_inject = False
 
     def rec(self, *e: Any) -> None:
         self.trace.append((self.tick,) + e)
@@ -53,32 +80,37 @@ class World:
     def sleep(self, secs: float) -> None:
         if self.tick >= len(self.history):
             raise EndOfHistory
-        die, sig, fchange = self.history[self.tick]
+        entry = self.history[self.tick]
+        die, sig, fchange = entry[0], entry[1], entry[2]
         self.tick += 1
         self.rec("tick")
         if self.queue is not None:
             self.queue.flush()
+        self.calls = 0
+        self.mid_now = {}
+        for k, kind, arg in (entry[3] if len(entry) > 3 else ()):
+            self.mid_now.setdefault(int(k), []).append((kind, arg))
         self.in_sleep = True
         try:
             self._inject(die, sig, fchange)
         finally:
             self.in_sleep = False
 
-    def _inject(self, die: Any, sig: Any, fchange: Any) -> None:
+    def _inject(self, die: Any, sig: Any, fchange: Any, mid: bool = False) -> None:
         for slot in die:
             p = self.current(f"worker-{slot}")
             if p is not None and p.state == "alive":
                 p.state = "dead"
-                self.deaths.append((self.tick, p))
-                self.rec("died", p.name, p.pid)
+                self.deaths.append((self.tick, p, mid))
+                self.rec("died", p.name, p.pid, mid)
         for one in (sig.split(",") if sig else []):
             signum = {"HUP": real_signal.SIGHUP, "INT": real_signal.SIGINT, "TERM": real_signal.SIGTERM}[one]
-            self.rec("signal", one)
+            self.rec("signal", one, mid)
             h = self.handlers.get(signum)
             if h is not None:
                 h(signum, None)
         if fchange:
-            self.rec("file_change")
+            self.rec("file_change", mid)
             pm.schedule_workers_reload(self.queue)
 
 
@@ -95,6 +127,7 @@ class FakeProcess:
 
     def start(self) -> None:
         w = self.world
+        w.point("start")
         self.pid = w.next_pid
         w.next_pid += 1
         live = [p.pid for p in w.procs if p is not self and p.name == self.name and p.state in ("alive", "terminating")]
@@ -102,12 +135,14 @@ class FakeProcess:
         w.rec("start", self.name, self.pid, tuple(live))
 
     def terminate(self) -> None:
+        self.world.point("terminate")
         self.world.rec("terminate", self.name, self.pid)
         if self.state == "alive":
             self.state = "terminating"
 
     def join(self, timeout: Any = None) -> None:
         w = self.world
+        w.point("join")
         if self.state == "alive":
             if timeout is not None:
                 w.rec("join_timeout", self.name, self.pid)
@@ -123,6 +158,7 @@ class FakeProcess:
             self.reaped = True
 
     def is_alive(self) -> bool:
+        self.world.point("is_alive")
         alive = self.state in ("alive", "terminating")
         if self.state == "dead":
             self.reaped = True
@@ -140,6 +176,7 @@ class FakeQueue:
             self.world.queue = self
 
     def put(self, x: Any) -> None:
+        self.world.point("put")
         if self.world.lag and not self.world.in_sleep:
             self.pending.append(x)
         else:
@@ -150,14 +187,19 @@ class FakeQueue:
         self.pending = []
 
     def get(self) -> Any:
+        self.world.point("get")
         return self.items.pop(0)
 
     def empty(self) -> bool:
+        self.world.point("empty")
         return not self.items
 
 
 class FakeEvent:
+    world: World
+
     def wait(self, timeout: Any = None) -> bool:
+        self.world.point("event_wait")
         return True
 
     def set(self) -> None:
@@ -170,6 +212,7 @@ class FakeOS:
 
     def kill(self, pid: int, sig: int) -> None:
         w = self.world
+        w.point("kill")
         owner = [p for p in w.procs if p.pid == pid]
         reaped = bool(owner and owner[0].reaped)
         w.rec("kill", pid, int(sig), reaped)
@@ -207,6 +250,7 @@ def run_history(workers: int, max_fails: int, history: List[Any], lag: bool = Fa
     world.slow_exit = slow_exit
     FakeProcess.world = world
     FakeQueue.world = world
+    FakeEvent.world = world
     saved = {k: getattr(pm, k) for k in ("Process", "Queue", "Event", "sleep", "os", "signal", "current_process")}
     pm.Process = FakeProcess  # type: ignore
     pm.Queue = FakeQueue  # type: ignore
@@ -236,7 +280,7 @@ def run_history(workers: int, max_fails: int, history: List[Any], lag: bool = Fa
             setattr(pm, k, v)
     out["trace"] = world.trace
     out["ticks"] = world.tick
-    out["deaths"] = [(t, p.name, p.pid) for t, p in world.deaths]
+    out["deaths"] = [(t, p.name, p.pid, mid) for t, p, mid in world.deaths]
     out["world"] = world
     return out
 
@@ -262,21 +306,29 @@ def oracle_c17(out: Dict[str, Any], workers: int) -> List[Violation]:
                 v.append(Violation("two-live-processes", f"tick {e[0]}: {name} started (pid {pid}) while pid(s) {list(live)} of the same slot were still live"))
     if started_slots != slots:
         v.append(Violation("slot-count-changed", f"slots started {sorted(started_slots)} != {sorted(slots)}"))
-    # replacement within two ticks
+    # replacement within two supervision ticks: a worker found dead by the scan of tick t (it died during
+    # that tick's sleep, or later in the tick but before the scan looked at it) is replaced while tick t+1
+    # is handled; one that died after the scan of tick t had passed it is found by the scan of t+1 and
+    # replaced in t+2
     ret_tick = None
     for e in tr:
         if e[1] in ("return", "crash"):
             ret_tick = e[0]
     last_tick = out["ticks"]
-    for t, name, pid in out["deaths"]:
-        if ret_tick is not None and ret_tick <= t + 2:
+    for t, name, pid, mid in out["deaths"]:
+        deadline = t + 1
+        i_death = next(i for i, e in enumerate(tr) if e[1] == "died" and e[3] == pid)
+        if mid:
+            seen_same_tick = any(e[1] == "is_alive" and e[3] == pid and e[4] is False and e[0] == t for e in tr[i_death:])
+            if not seen_same_tick:
+                deadline = t + 2
+        if ret_tick is not None and ret_tick <= deadline:
             continue
-        if last_tick < t + 2 or (last_tick == t + 2 and not _tick_completed(tr, t + 2, out)):
+        if last_tick < deadline:
             continue  # history too short to judge
-        ok = any(e[1] == "start" and e[2] == name and e[3] != pid and t <= e[0] <= t + 2 and _after_death(tr, e, pid)
-                 for e in tr)
+        ok = any(e[1] == "start" and e[2] == name and e[3] != pid and t <= e[0] <= deadline for e in tr[i_death:])
         if not ok:
-            v.append(Violation("dead-worker-not-replaced", f"{name} (pid {pid}) died at tick {t}; no replacement started by the end of tick {t + 2}"))
+            v.append(Violation("dead-worker-not-replaced", f"{name} (pid {pid}) died {'while tick ' + str(t) + ' was handled' if mid else 'in the sleep of tick ' + str(t)}; no replacement started by the end of tick {deadline}"))
     return v
 
 
@@ -321,6 +373,7 @@ def oracle_c18(out: Dict[str, Any], workers: int, max_fails: int, history: List[
                 v.append(Violation("failure-exit-with-budget-disabled", f"returned -1 with max_fails={max_fails}"))
             elif K < max_fails:
                 v.append(Violation("failure-exit-too-early", f"returned -1 after the manager was told of {K} unexpected exits, max_fails={max_fails}"))
+    sd_events0 = [e for e in tr if e[1] == "signal" and e[2] in ("INT", "TERM")]
     # converse: K(t-1) >= max_fails >= 1 => returned (-1, or None if a shutdown signal raced) by tick t
     if max_fails >= 1:
         for t in sorted(K_at_end_of_tick):
@@ -329,7 +382,7 @@ def oracle_c18(out: Dict[str, Any], workers: int, max_fails: int, history: List[
                 if out["ticks"] >= t + 1 and _tick_played_fully(out, t + 1):
                     if ret_tick is None or ret_tick > t + 1:
                         v.append(Violation("failure-budget-ignored", f"manager was told of {K_at_end_of_tick[t]} unexpected exits by the end of tick {t} (max_fails={max_fails}) but did not exit during tick {t + 1}"))
-                    elif ret == None and not _shutdown_in_tick(history, t + 1):  # noqa: E711
+                    elif ret == None and not any(e[0] <= t + 1 for e in sd_events0):  # noqa: E711
                         v.append(Violation("failure-budget-ignored", f"budget exhausted at tick {t} but start() returned success"))
                 break
     # reload-all: (i) never more than one restart of a slot within one tick; (ii) every reload-all request
@@ -343,33 +396,39 @@ def oracle_c18(out: Dict[str, Any], workers: int, max_fails: int, history: List[
         if n > 1:
             v.append(Violation("reload-all-restart-count", f"tick {t}: {name} was restarted {n} times within one tick"))
             break
-    for t, (die, sig, fchange) in enumerate(history, start=1):
-        if t > out["ticks"]:
-            break
-        if not ((sig and "HUP" in sig) or fchange):
+    lagged = bool(out["world"].lag) if "world" in out else False
+    sd_events = [e for e in tr if e[1] == "signal" and e[2] in ("INT", "TERM")]
+    first_sd = sd_events[0] if sd_events else None
+    for e in tr:
+        is_req = (e[1] == "signal" and e[2] == "HUP") or e[1] == "file_change"
+        if not is_req:
             continue
-        if _is_shutdown(sig):
+        t = e[0]
+        mid = bool(e[-1])
+        # a request made while the manager handles tick t is picked up in that tick or the next; the ReloadOne
+        # expansion may take one more tick to become visible on a lagged queue
+        deadline = t + 1 + (1 if (mid and lagged) else 0)
+        if first_sd is not None and first_sd[0] <= deadline:
             continue
-        if ret_tick is not None and ret_tick <= t + 1:
+        if ret_tick is not None and ret_tick <= deadline:
             continue
-        if out["ticks"] < t + 1 or not _tick_played_fully(out, t + 1):
+        if out["ticks"] < deadline or not _tick_played_fully(out, deadline):
             continue
         for i in range(workers):
-            n = per_tick.get((t, f"worker-{i}"), 0) + per_tick.get((t + 1, f"worker-{i}"), 0)
+            n = sum(per_tick.get((tt, f"worker-{i}"), 0) for tt in range(t, deadline + 1))
             if n < 1:
-                v.append(Violation("reload-all-restart-count", f"reload-all requested at tick {t} but worker-{i} was not restarted in ticks {t}..{t + 1}"))
+                v.append(Violation("reload-all-restart-count", f"reload-all requested {'while handling' if mid else 'in the sleep of'} tick {t} but worker-{i} was not restarted in ticks {t}..{deadline}"))
                 break
     # shutdown
-    sd_tick = None
-    for t, (die, sig, fchange) in enumerate(history, start=1):
-        if _is_shutdown(sig) and t <= out["ticks"]:
-            sd_tick = t
-            break
+    sd_tick = first_sd[0] if first_sd is not None else None
+    sd_deadline = None if first_sd is None else (sd_tick + (1 if first_sd[-1] else 0))
+    if sd_tick is not None and out["ticks"] < sd_deadline:
+        sd_tick = None  # history ended before the request had to be handled
     if sd_tick is not None and (ret_tick is None or ret_tick >= sd_tick) and not out["crash"]:
-        if not out["returned"] or ret_tick != sd_tick:
-            v.append(Violation("shutdown-ignored", f"shutdown signal at tick {sd_tick} but start() did not return in that tick (returned={out['returned']}, tick={ret_tick})"))
+        if not out["returned"] or ret_tick > sd_deadline:
+            v.append(Violation("shutdown-ignored", f"shutdown signal at tick {sd_tick} but start() did not return by the end of tick {sd_deadline} (returned={out['returned']}, tick={ret_tick})"))
         elif ret is None:
-            kills = [e for e in tr if e[1] == "kill" and e[0] == sd_tick]
+            kills = [e for e in tr if e[1] == "kill" and e[0] == ret_tick]
             w: World = out["world"]
             # current workers at the moment of the first kill / return
             idx = tr.index(kills[0]) if kills else len(tr)
@@ -378,10 +437,13 @@ def oracle_c18(out: Dict[str, Any], workers: int, max_fails: int, history: List[
             for e in tr[:idx]:
                 if e[1] == "start":
                     current[e[2]] = e[3]
-                elif e[1] == "died":
+            for e in tr:
+                if e[1] == "died":  # dead before the manager got to signal it (also while the loop was running)
                     state_dead.add(e[3])
             cur_pids = set(current.values())
             for e in kills:
+                if e[4]:
+                    v.append(Violation("signalled-reaped-pid", f"shutdown signalled pid {e[2]} which the manager had already reaped (the number may belong to a foreign process)"))
                 if e[2] not in cur_pids:
                     v.append(Violation("signalled-foreign-process", f"shutdown signalled pid {e[2]}, not a current worker ({sorted(cur_pids)})"))
                 if e[3] != int(real_signal.SIGINT):
@@ -466,6 +528,8 @@ class ProcCheck(Check):
     thorough_cfg = [(1, 7), (2, 5), (3, 4)]
     quick_random = 2000
     thorough_random = 60000
+    quick_mid = 40000
+    thorough_mid = 1500000
     quick_cases = 10 ** 9
     thorough_cases = 10 ** 9
     quick_time = 90.0
@@ -483,6 +547,9 @@ class ProcCheck(Check):
         nrand = self.quick_random if tier == "quick" else self.thorough_random
         salt = rng.randint(0, 10 ** 6)
         rnd = [{"mode": "random", "seed": salt * 100003 + i, "n": 50} for i in range(nrand // 50)]
+        nmid = self.quick_mid if tier == "quick" else self.thorough_mid
+        mid = [{"mode": "mid", "seed": salt * 100019 + i, "n": 500} for i in range(nmid // 500)]
+        rnd = [b for pair in itertools.zip_longest(rnd, mid) for b in pair if b is not None]
         batches = rnd + batches  # cheap random histories first: a time-capped shard still covers them
         # deterministic partition of the batches over shards
         for i, b in enumerate(batches):
@@ -511,6 +578,36 @@ class ProcCheck(Check):
             except StopIteration:
                 pass
             cr.counters[f"enum_w{w}_d{depth}_{'lag' if spec.get('lag') else 'sync'}_batches"] += 1
+        elif spec["mode"] == "mid":
+            # short histories with events *inside* ticks: before the k-th call the manager makes into the
+            # process world while it handles the tick (see World.point)
+            rng = random.Random(spec["seed"])
+            for _ in range(spec["n"]):
+                w = rng.randint(1, 3)
+                mf = rng.choice(MAX_FAILS)
+                L = rng.randint(2, 7)
+                alpha = alphabet(w)
+                quiet = [a for a in alpha if not _is_shutdown(a[1])]
+                hist = []
+                for _t in range(L):
+                    r = rng.random()
+                    base = ((), None, False) if r < 0.4 else (rng.choice(quiet) if r < 0.95 else rng.choice(alpha))
+                    mids = []
+                    for _m in range(rng.choice([0, 1, 1, 1, 2])):
+                        kind = rng.choice(["die", "die", "sig", "sig", "file"])
+                        arg: Any = None
+                        if kind == "die":
+                            arg = rng.randrange(w)
+                        elif kind == "sig":
+                            arg = rng.choice(["HUP", "HUP", "INT", "TERM"])
+                        mids.append([rng.randint(1, 6 + 8 * w), kind, arg])
+                    hist.append(base + (mids,))
+                lag = rng.random() < 0.5
+                out = run_history(w, mf, hist, lag, rng.choice([0.0, 0.0, 8.0]))
+                self._account(cr, out, w, mf, hist)
+                cr.counters["midtick_histories"] += 1
+                for site, kind in out["world"].mid_sites:
+                    cr.counters[f"mid_{kind}_at_{site}"] += 1
         else:
             rng = random.Random(spec["seed"])
             for _ in range(spec["n"]):
@@ -540,7 +637,7 @@ class ProcCheck(Check):
     def _account(self, cr: CaseResult, out: Dict[str, Any], w: int, mf: int, hist: List[Any]) -> None:
         cr.counters["histories"] += 1
         played = hist[: out["ticks"]]
-        if any(d or s or f for d, s, f in played):
+        if any(h[0] or h[1] or h[2] or (len(h) > 3 and h[3]) for h in played):
             cr.counters["nontrivial_histories"] += 1
         for e in out["trace"]:
             cr.events[e[1]] += 1
@@ -551,7 +648,7 @@ class ProcCheck(Check):
             x.detail = {"workers": w, "max_fails": mf, "queue_lag": bool(out["world"].lag), "history": [list(map(_j, h)) for h in played],
                         "trace": [list(map(_j, e)) for e in out["trace"][:200]]}
         cr.violations += vs
-        if cr.trace is None and any(d for d, s, f in played) and len(out["trace"]) < 60:
+        if cr.trace is None and any(h[0] for h in played) and len(out["trace"]) < 60:
             cr.trace = {"workers": w, "max_fails": mf, "history": [list(map(_j, h)) for h in played],
                         "trace": [list(map(_j, e)) for e in out["trace"]]}
 
@@ -624,9 +721,9 @@ class C17(ProcCheck):
     def selftest(self) -> List[str]:
         out = {"trace": [(0, "start", "worker-0", 1000, ()), (1, "tick"), (1, "died", "worker-0", 1000), (2, "tick"),
                          (3, "tick"), (3, "start", "worker-0", 1001, (1000,)), (4, "tick")],
-               "crash": None, "ticks": 4, "deaths": [(1, "worker-0", 1000)], "returned": False}
+               "crash": None, "ticks": 4, "deaths": [(1, "worker-0", 1000, False)], "returned": False}
         kinds = {x.kind for x in oracle_c17(out, 1)}
-        want = {"two-live-processes"}
+        want = {"two-live-processes", "dead-worker-not-replaced"}
         return [] if want <= kinds else [f"C17 oracle missed {want - kinds}"]
 
 
